@@ -14,13 +14,14 @@ RULE = ('random-weight models built by the real build_net (tiny VGG-shaped front
         'end-of-line bias varied so that lines end at different steps or hit the length cap; sequences of 3-4 batches with equal and different batch sizes (1-4) and widths (64/128/256) on one '
         'model instance; transcribe_batch and run_ocr. non-trivial = batch with >= 2 lines decoded on a model that has decoded a different batch before; distinct = hash of (model, batches) Batches of 256 / 512 / 258 lines; a 2048-px line decoded for more than 500 steps; every third alphabet contains U+200B as an ordinary character. Alphabets of 40000 / 70000 characters; run_ocr on floating-point batches.')
 RULE += ' Round 6: The step-wise decoder interface with a harness-chosen prefix, look-ahead re-scoring and a final uncached step.'
+RULE += ' Round 9: Teacher-forced logits of a decoder with very peaked self-attention do not depend on later symbols.'
 RULE += ' Round 7: Step-wise decodes with a final normalisation layer and attention output; hypotheses re-ordered before an uncached step.'
 ASSUMPTIONS = ['float32 logits compared within 2e-4 relative to the largest |logit| of the batch (largest relative difference on the unchanged tree is reported as observed maximum)',
                'steps at which the arg-max margin is below 1e-3 make later steps of that line incomparable (decoding may legitimately branch): skipped from there on',
                'termination is decided on decoding steps: at most W//4 + 2']
 N = {'quick': 40, 'thorough': 3000}
 CLASSES = ['default', 'deep', 'wide', 'eos_early', 'never_ends', 'single_head', 'run_ocr', 'default', 'batch_256', 'long_line', 'huge_alphabet']
-REQUIRED = ['stepwise_decodes_with_a_final_norm', 'stepwise_decodes_with_reordered_hypotheses', 'stepwise_prefix_decodes', 'steps_scored_twice', 'uncached_step_after_cached_ones', 'models_with_more_than_32767_classes', 'run_ocr_float_batches', 'batches_of_256_or_more_lines', 'lines_decoded_for_more_than_500_steps', 'models_with_zero_width_space_in_the_alphabet', 'batches', 'cached_vs_uncached', 'cached_vs_teacher_forced', 'fresh_vs_history', 'single_vs_batch_lines', 'cache_calls_checked', 'cross_attention_cache_checked',
+REQUIRED = ['peaked_decoders_checked_for_future_independence', 'stepwise_decodes_with_a_final_norm', 'stepwise_decodes_with_reordered_hypotheses', 'stepwise_prefix_decodes', 'steps_scored_twice', 'uncached_step_after_cached_ones', 'models_with_more_than_32767_classes', 'run_ocr_float_batches', 'batches_of_256_or_more_lines', 'lines_decoded_for_more_than_500_steps', 'models_with_zero_width_space_in_the_alphabet', 'batches', 'cached_vs_uncached', 'cached_vs_teacher_forced', 'fresh_vs_history', 'single_vs_batch_lines', 'cache_calls_checked', 'cross_attention_cache_checked',
             'batches_after_different_batch', 'lines_hit_length_cap', 'lines_ended', 'run_ocr_batches', 'run_ocr_history_batches']
 SHARDS = {'quick': 8, 'thorough': 16}
 TIMEOUT = {'quick': 1200, 'thorough': 10800}
@@ -176,6 +177,29 @@ def check(case, mon, ctx):
             singles = [e2.transcribe_batch(x[k:k + 1].copy(), is_cached=True) for k in single_ids]
             labels = torch.cat([torch.full((b['n'], 1), BND), l.argmax(-1)[:, :-1]], 1)
             full = eng.net(torch.from_numpy(x).float() / 255.0, labels).permute(1, 0, 2)
+        if bi == 0 and labels.shape[1] >= 3 and not getattr(eng.net, 'training', False):
+            # a decoder whose self-attention is very peaked (query / key projections 300 times the usual size): the teacher-forced logits of step t do not
+            # depend on the symbols after t - step-by-step decoding, which the forward pass must equal, has not seen them yet. Same execution mode twice.
+            peaked = copy.deepcopy(fresh)
+            peaked.eval()
+            dmod = peaked.trans_decoder.dim_model if hasattr(peaked.trans_decoder, 'dim_model') else case['dim']
+            with torch.no_grad():
+                for mod in peaked.modules():
+                    if type(mod).__name__ == 'DecoderLayer':
+                        mod.self_attn.in_proj_weight[:2 * dmod] *= 300.0
+                xin = torch.from_numpy(x).float() / 255.0
+                la = labels.clone()
+                cut = int(labels.shape[1] // 2)
+                lb = labels.clone()
+                lb[:, cut + 1:] = (lb[:, cut + 1:] + 1 + (bi + cut) % max(1, nsym - 1)) % nsym
+                fa = peaked(xin, la).permute(1, 0, 2)
+                fb = peaked(xin, lb).permute(1, 0, 2)
+            mon.count('peaked_decoders_checked_for_future_independence')
+            d_future = maxdiff(fa[:, :cut + 1], fb[:, :cut + 1])
+            mon.observe_max('future_dependence_abs', d_future)
+            if bool((la != lb).any()) and d_future > 1e-3 * max(5.0, float(fa.abs().max())):
+                mon.violation('cached-equals-teacher-forced', dict(w, note='teacher-forced logits of the first %d steps change by %.3g when only later symbols are changed (peaked self-attention): '
+                              'step-by-step decoding cannot depend on symbols it has not produced yet' % (cut + 1, d_future)))
         mon.count('batches')
         mon.observe('transcriptions', [t_.tolist() for t_ in o])
         if prev_shape is not None and prev_shape != (b['n'], b['w']):
